@@ -155,6 +155,14 @@ Section C18_sphere.
     nth (i * n_kept (sphere_dups level outer) + k) (sphere_nodes level nz inner outer) d0 =
     nth k (layer_nodes inner outer nz (kept_points (all_nodes level) (sphere_dups level outer)) i) d0.
   Proof. exact sphere_nodes_layer. Qed.
+  (** the hull merge: when "a hull node within the tolerance" is transitive among the nodes (as it is when duplicates coincide up to
+      rounding and distinct nodes are further apart than the tolerance), no node is merged into a node that is itself merged
+      away, so the renumbering never reads an entry it has not written; the check evaluates this condition ([targets_ok]) on the
+      model for every sphere grid it builds *)
+  Theorem C18_sphere_merge_targets : forall (dist : F) (all : list (@spt F * bool)),
+    (forall i j k, hull_close dist all i j = true -> hull_close dist all j k = true -> hull_close dist all i k = true) ->
+    targets_ok (dups dist all) = true.
+  Proof. exact targets_ok_of_transitivity. Qed.
 End C18_sphere.
 
 (** over exact reals: every node of layer i lies on the sphere of radius inner + i (outer - inner)/n_cell_z, and these radii
@@ -201,3 +209,4 @@ Print Assumptions C18_sphere_renumbering.
 Print Assumptions C18_sphere_node_order.
 Print Assumptions C18_sphere_layers.
 Print Assumptions C18_sphere_layer_radii.
+Print Assumptions C18_sphere_merge_targets.
